@@ -716,6 +716,14 @@ def bump(index, rep):
                 return Rat.const(0)
             if d == "len":
                 return Rat.atom(("len",))
+            if d in ("np.divide", "np.true_divide") and len(a) == 2 and not (set(kw) - {"out", "where"}):
+                # elementwise: where the condition holds the quotient, elsewhere what `out` held before
+                x, y = interp.to_rat(a[0]), interp.to_rat(a[1])
+                if "where" not in kw:
+                    return x / y
+                if "out" not in kw:
+                    raise Unsupported("np.divide(..., where=) without out= leaves the other entries uninitialised", node)
+                return x / y if interp.truth(kw["where"], node) else kw["out"]
             return NotImplemented
 
         it.call_hook = hk
@@ -747,6 +755,34 @@ def bump(index, rep):
                     bad = bad or f"{k_} = {it.to_rat(env[k_])} can exceed the head-room {room} of {use} under its demand"
     if seen_pot < 2:
         raise AnalysisError("increase_biofuels_then_feed: the potential increases of biofuel and feed were not found among its locals")
+    # how the granted total is split: the biofuel share is potential_biofuel / (total potential [+ a tiny constant]) on every path (0 only
+    # where the biofuel potential is 0), and feed gets the rest - with granted <= total potential each part then stays within its own
+    # potential increase, hence within its head-room
+    bad_share = None
+    n_share = 0
+    for _, dec, env, it in el:
+        pb = [v_ for k_, v_ in env.items() if "potential" in k_ and "biofuel" in k_ and "total" not in k_ and isinstance(v_, (Rat, Path))]
+        pf = [v_ for k_, v_ in env.items() if "potential" in k_ and "feed" in k_ and "total" not in k_ and isinstance(v_, (Rat, Path))]
+        sh = [(k_, v_) for k_, v_ in env.items() if any(w in k_ for w in ("proportion", "share", "fraction")) and isinstance(v_, (Rat, Path))]
+        if len(pb) != 1 or len(pf) != 1 or len(sh) != 1:
+            import os as _os
+            if _os.environ.get("ALLFEDSA_DEBUG"):
+                print("share-debug", len(pb), len(pf), [(k_, type(v_).__name__) for k_, v_ in env.items() if any(w in k_ for w in ("proportion", "share", "fraction", "potential"))])
+            continue
+        n_share += 1
+        pb_, pf_, v_ = it.to_rat(pb[0]), it.to_rat(pf[0]), it.to_rat(sh[0][1])
+        ok_s = False
+        if v_.is_zero():
+            ok_s = leaf_implies(it, dec, pb_, "<=", extra=given)
+        else:
+            eps = pb_ / v_ - (pb_ + pf_)
+            ok_s = eps.is_const() and 0 <= eps.const_value() <= Fraction(1, 10 ** 6)
+        if not ok_s:
+            bad_share = bad_share or f"{sh[0][0]} = {str(v_)[:80]} when " + ", ".join(f"{str(k_)[:40]}={'T' if b_ else 'F'}" for k_, b_ in list(dec.items())[:4])
+    if n_share:
+        rep.check(bad_share is None, rule, "the granted total is split in proportion to the potential increases",
+                  "the share of the granted increase that goes to biofuel is not potential_biofuel / total potential on every path, so the rest - "
+                  f"which goes to feed - can exceed what feed may still be raised by: {bad_share}", loc=loc(PARAMS, fn))
     rep.check(bad is None, rule, "potential increase <= head-room under the demand, for biofuel and for feed",
               f"a series can be raised above its demand: {bad}", loc=loc(PARAMS, fn))
     rep.require_min(rule, 3)
